@@ -109,9 +109,13 @@ def rnd_layout(rnd, be):
     return lay
 
 
-def rnd_history(rnd, nops, zst):
+def rnd_history(rnd, nops, zst, xen=False):
     be = rnd.choice(["mmap", "mmap", "custom", "custom", "mmapfile"])
     p = rnd.choice([1, 2, 3, 8, 64, 4096])
+    if xen:
+        # the Xen build's UNIX mapping type: anonymous or file-backed, bitmap at the system page size
+        be = rnd.choice(["mmap", "mmapfile"])
+        p = 4096
     lay = rnd_layout(rnd, be)
     prog = [{"op": "init", "a": {"be": be, "p": p, "lay": lay, "via": rnd.choice(["direct", "insert", "remove", "remove"])}}]
 
@@ -242,10 +246,24 @@ def traces(ctx, zst=None, release=False):
                 [{"op": e["op"], "a": e["a"], "r": e["r"]} for e in events[:10]]})
 
 
+def traces_xen(ctx):
+    """The same boundary-biased histories on regions built by the Xen build's MmapRegion::from_range (UNIX mapping type)."""
+    nhist, nops = (80, 50) if ctx.tier == "quick" else (1500, 70)
+    prog = []
+    for _ in range(nhist):
+        prog += rnd_history(ctx.rnd, nops, False, xen=True)
+    events = run_harness("guest", prog, os.path.join(WORK, "tr_guestx_%s.ev.ndjson" % ctx.pid), pkg="vmh-xen", ctx=ctx)
+    judge_chunks(ctx, "tr_guestx_" + ctx.pid, events)
+    ctx.cov["traces_validated_against_impl"] += nhist
+    ctx.cov["xen_unix_histories"] = nhist
+
+
 def run(ctx):
     mc(ctx)
     gen(ctx)
     traces(ctx)
+    if ctx.pid in ("C02", "C03"):
+        traces_xen(ctx)
     ctx.assumptions += [
         "TLC explores layouts exhaustively only in an 8-address universe (<=3 regions of <=3 bytes); large layouts and "
         "the 2^63 / 2^64 boundaries are covered by recorded traces in band encoding",
